@@ -49,7 +49,7 @@ Proof. exact cursor_roundtrip. Qed.
 Print Assumptions C12_cursor_roundtrip_full.
 
 (* ---- SignedHeader / SignedData: exact round trip, header/data, signature and signer included, for every
-   well-formed value and every public-key table.  (Before the repair c84fe2d of types/serialization.go a
+   well-formed value and every public-key table.  (Before the repair fc1d21b of types/serialization.go a
    signer with an address but no key came back empty: see the Examples before_the_repair_* below.) ---- *)
 Theorem C12_signed_header_roundtrip_full : forall pk_canon s, wf_signed_header pk_canon s ->
   marshal_signed_header s = Some (enc_signed_header s) /\
@@ -195,7 +195,7 @@ Proof. unfold wf_header, wf_version, sz, len, two64; cbn; repeat split; try refl
 Example ex_header_bytes :
   enc_header ex_header = [10;13;8;1;16;255;255;255;255;255;255;255;255;255;1;16;172;2;34;3;1;2;3;50;1;255;66;1;0;82;2;9;9;98;5;99;49;50;195;169].
 Proof. vm_compute. reflexivity. Qed.
-(* the defect repaired by c84fe2d, kept as a record: with the OLD glue a signer with an address and no key was
+(* the defect repaired by fc1d21b, kept as a record: with the OLD glue a signer with an address and no key was
    written as the empty signer and read back empty; with the repaired glue it survives; the signer with
    neither key nor address keeps its bytes (1a 00) *)
 Definition old_signer_to_pb (s : wsigner) : wsigner := if is_nil (sg_pk s) then signer0 else s.
